@@ -38,6 +38,7 @@
    Not covered here, tied by the correspondence harness (checks C11): Info and the index-based
    readers on decorated files, and whole files carrying padded records (the model's render
    function emits exact records only). *)
+From Mcap Require ConstsTie LayoutTie. (* regenerated ties to /repo's source that this property's model relies on *)
 From Coq Require Import List NArith ZArith Bool.
 From Coq.Strings Require Import Byte.
 From Mcap Require Import Bytes GoSem Crc32 Records RecordsFacts Writer Lexer LexSpec LexerFactsB ComposeFacts.
